@@ -1,0 +1,22 @@
+//go:build verif
+
+// Machine-checked contracts (Gobra-style //@ comments) for the verification harness in /verif.
+// This file contains no code; it is compiled only under the build tag "verif".
+package gemmill
+
+// fast-sync block verifier installed for the PBFT engine: it reads the validator set through the live
+// state object at call time (so it follows validator-set changes applied by ApplyBlock on the same object)
+//@ func (*Angine).assembleStateMachine$2
+//@   props C13
+//@   requires stateM != nil && stateM.Validators != nil && lc != nil
+//@   atcall VerifyCommit assert [verifier-uses-live-validator-set] arg_valSet == stateM.Validators && arg_chainID == stateM.ChainID && arg_blockID == bID && arg_height == h && arg_commit == lc
+//@   ensures  [nil-only-from-verify-commit] calls(VerifyCommit) == 1
+
+// fast-sync block executer: stores the block, then applies it to the same state object, then saves the state
+//@ ghost gSaved Ref
+//@ func (*Angine).assembleStateMachine$3
+//@   props C13 C06
+//@   requires stateM != nil && blk != nil && blk.Header != nil && pst != nil && blockStore != nil && ang != nil && ang.eventSwitch != nil
+//@   atcall SaveBlock set gSaved = arg_block
+//@   atcall ApplyBlock assert [apply-the-stored-block-to-the-live-state] gSaved == blk && arg_block == blk && arg_s == stateM && calls(SaveBlock) == 1
+//@   atcall Save assert [state-saved-only-after-apply-succeeded] calls(ApplyBlock) == 1 && arg_s == stateM
